@@ -75,6 +75,9 @@ type vStore struct {
 }
 
 func (s *vStore) StartEphemeral(context.Context, string, time.Duration) (<-chan struct{}, func(), error) {
+	if vNativeRun {
+		time.Sleep(5 * time.Millisecond) // natively: a store round trip takes time, goroutines spawned before it get to run (as under gosym's schedules)
+	}
 	s.expiry = make(chan struct{}) // every registration has its own expiry channel
 	s.registered++
 	return s.expiry, func() { s.unregistered++ }, nil
